@@ -39,6 +39,8 @@ func (w *world) defflavor(i int) string {
 		}
 		if v.Def != nil {
 			fmt.Fprintf(&b, "(%s %d)", v.Name, *v.Def)
+		} else if v.Nil {
+			fmt.Fprintf(&b, "(%s nil)", v.Name)
 		} else {
 			b.WriteString(v.Name)
 		}
@@ -274,6 +276,12 @@ func (w *world) checkStatic(st *stats) string {
 					return fmt.Sprintf("after %s: an instance of %s (precedence %s): variable %s = %s, expected the default %d of the first declaring flavor", all, name, want, x, got, *e.def)
 				}
 			}
+			if e.defNil {
+				st.defaults++
+				if got := sx.Text(v); got != "nil" {
+					return fmt.Sprintf("after %s: an instance of %s (precedence %s): variable %s = %s, expected the default nil given by the first declaring flavor", all, name, want, x, got)
+				}
+			}
 			cur := sx.Text(v)
 			// getter
 			if e.gettable != maybe {
@@ -480,9 +488,12 @@ func genCase(rt *rapid.T) Case {
 		for vi, x := range varPool {
 			if rapid.IntRange(0, 9).Draw(rt, "declare") < 4 {
 				v := Var{Name: x}
-				if rapid.IntRange(0, 9).Draw(rt, "default") < 8 {
+				switch k := rapid.IntRange(0, 9).Draw(rt, "default"); {
+				case k < 6:
 					d := 100*(i+1) + vi
 					v.Def = &d
+				case k < 8:
+					v.Nil = true // (x nil): a default that is nil, not the same as no default
 				}
 				f.Vars = append(f.Vars, v)
 			}
